@@ -24,6 +24,7 @@ ULit(c) == [k |-> "lit", c |-> c]
 UCls(s, neg) == [k |-> "cls", s |-> s, neg |-> neg]
 UWCls(neg) == [k |-> "wcls", neg |-> neg]
 UDot == [k |-> "dot"]
+UNoU(x) == [k |-> "nou", a |-> x]       \* (?-u:x): classes and the dot range over BYTES (only used on lines without multi-byte symbols)
 UPosix(up) == [k |-> "pcls", up |-> up]      \* [[:upper:]] / [[:lower:]]: ASCII letters of one case; NOT a literal for smart case
 UCat(a, b) == [k |-> "cat", a |-> a, b |-> b]
 UAlt(a, b) == [k |-> "alt", a |-> a, b |-> b]
@@ -35,16 +36,31 @@ ULook(l) == [k |-> "look", l |-> l]
 RECURSIVE AnyLit(_), AnyUpper(_)
 AnyLit(u) == CASE u.k = "lit" -> TRUE [] u.k = "cls" -> u.s # {}
                [] u.k \in {"cat", "alt"} -> AnyLit(u.a) \/ AnyLit(u.b)
-               [] u.k \in {"rep", "grp"} -> AnyLit(u.a) [] OTHER -> FALSE
+               [] u.k \in {"rep", "grp", "nou"} -> AnyLit(u.a) [] OTHER -> FALSE
 AnyUpper(u) == CASE u.k = "lit" -> u.c \in Upper [] u.k = "cls" -> u.s \cap Upper # {}
                  [] u.k \in {"cat", "alt"} -> AnyUpper(u.a) \/ AnyUpper(u.b)
-                 [] u.k \in {"rep", "grp"} -> AnyUpper(u.a) [] OTHER -> FALSE
+                 [] u.k \in {"rep", "grp", "nou"} -> AnyUpper(u.a) [] OTHER -> FALSE
 CaseInsensitive(u, o) == o.ci \/ (o.smart /\ AnyLit(u) /\ ~AnyUpper(u))
 
 \* (?m)^ and $ always refer to \n (or CRLF), also under --null-data, where a "line" may contain \n
 Env(o) == [crlf |-> o.crlf, lt |-> SLF]
 
 \* number capture groups left to right; returns <<sem, next group index>>
+\* inside (?-u:...): a class item is one byte; every single-byte symbol - the invalid byte included - is a candidate
+RECURSIVE LowerB(_, _, _, _)
+ByteSyms == AllSyms \ {SEA, SUEA}
+AsciiWord == WordSyms \ {SEA, SUEA}
+LowerB(u, ci, o, g) ==
+  CASE u.k = "lit" -> << Set(IF ci THEN Fold(u.c) ELSE {u.c}), g >>
+    [] u.k = "cls" -> LET s1 == IF ci THEN FoldSet(u.s) ELSE u.s IN << Set(IF u.neg THEN ByteSyms \ s1 ELSE s1), g >>
+    [] u.k = "wcls" -> << Set(IF u.neg THEN ByteSyms \ AsciiWord ELSE AsciiWord), g >>
+    [] u.k = "dot" -> << Set(IF o.dotall THEN ByteSyms ELSE ByteSyms \ ({SLF} \cup (IF o.crlf THEN {SCR} ELSE {}))), g >>
+    [] u.k = "cat" -> LET x == LowerB(u.a, ci, o, g) y == LowerB(u.b, ci, o, x[2]) IN << Cat(x[1], y[1]), y[2] >>
+    [] u.k = "alt" -> LET x == LowerB(u.a, ci, o, g) y == LowerB(u.b, ci, o, x[2]) IN << Alt(x[1], y[1]), y[2] >>
+    [] u.k = "rep" -> LET x == LowerB(u.a, ci, o, g) IN << Rep(x[1], u.min, u.max, u.g), x[2] >>
+    [] u.k = "grp" -> IF u.cap THEN LET x == LowerB(u.a, ci, o, g + 1) IN << Grp(g, x[1]), x[2] >>
+                      ELSE LowerB(u.a, ci, o, g)
+
 RECURSIVE Lower(_, _, _, _)
 Lower(u, ci, o, g) ==
   CASE u.k = "lit" -> << Set(IF ci THEN Fold(u.c) ELSE {u.c}), g >>
@@ -59,6 +75,7 @@ Lower(u, ci, o, g) ==
     [] u.k = "grp" -> IF u.cap THEN LET x == Lower(u.a, ci, o, g + 1) IN << Grp(g, x[1]), x[2] >>
                       ELSE Lower(u.a, ci, o, g)
     [] u.k = "look" -> << Look(u.l), g >>
+    [] u.k = "nou" -> LowerB(u.a, ci, o, g)
 
 \* the pattern as the matcher must behave: case folding, then -x / -w wrapping (-x wins over -w)
 Wrapped(u, o) ==
